@@ -48,6 +48,23 @@ DEFINITE_GROW = ("String::push", "Vec::<T, A>::push", "Option::<T>::insert", "Op
 SESSION = "<session>"       # pseudo field: "some session-defining field is non-empty" (established by the session flag's true edge)
 
 
+def _len_switch(d):
+    """If E d is `len()` of a self field: that field."""
+    d = strip_refs(d)
+    if d.k == "call" and (d.a[0].endswith("String::len") or d.a[0].endswith("str>::len") or d.a[0].endswith("Vec::<T, A>::len")) and d.a[1]:
+        x = d.a[1][0]
+        for _ in range(4):
+            x = strip_refs(x)
+            if x.k == "call" and x.a[0].endswith("::deref") and len(x.a[1]) == 1:
+                x = x.a[1][0]
+                continue
+            break
+        sp = self_path(x)
+        if sp and len(sp) == 1:
+            return sp[0]
+    return None
+
+
 def _flag_test(d, flag_fn):
     """If bool E d is (a negation of) a call of the session-flag function on self: the value d has while a session is ongoing."""
     if flag_fn is None:
@@ -153,6 +170,24 @@ def analyse_paths(prog, fnkey, mods, sess=(), flag_fn=None):
                 bv = bool_of((d, vals, allv, t["discr_ty"]))
                 et = _empty_test(d)
                 fl = _flag_test(d, flag_fn)
+                ln = _len_switch(d)
+                if ln is not None and t["discr_ty"] != "bool":
+                    # match field.len() { 0 => …, _ => … }
+                    is_zero = vals == (0,) or (vals == "otherwise" and 0 not in allv and False)
+                    nonzero = (vals != "otherwise" and 0 not in vals) or (vals == "otherwise" and 0 in allv)
+                    if vals == (0,):
+                        if state.get(ln) == "NE":
+                            infeasible = True
+                            break
+                        state[ln] = "E"
+                        if not any(w[0] == ln and w[1] not in ("clear", "=None") for w in writes):
+                            refined_before_write[ln] = True
+                    elif nonzero:
+                        if state.get(ln) == "E":
+                            infeasible = True
+                            break
+                        state[ln] = "NE"
+                    continue
                 if fl is not None and bv is not None:
                     ongoing = (bv == fl)
                     if ongoing:
